@@ -732,6 +732,21 @@ theorem eliminator_keeps_counts (val : Validator) (votes out : List (Obj × Rat)
   rw [(eliminate_ok h).1]
   exact List.filter_sublist
 
+/-- a consequence of the filter catching `VoteError` only: wrapped around a SimpleVoteValidator (whose only
+    rejection is a CandidateError) it can never remove anything — it returns the input or raises -/
+theorem eliminator_simple_never_removes (nom : Nominator) (votes out : List (Obj × Rat))
+    (h : eliminate (Validator.simple nom).validate votes = .ok out) : out = votes := by
+  obtain ⟨h1, h2⟩ := eliminate_ok h
+  rw [h1, List.filter_eq_self]
+  intro p hp
+  rcases h2 p hp with h3 | h3
+  · exact decide_eq_true h3
+  · rcases rejections_are_library_errors_simple nom p.1 with h4 | h4
+    · exact decide_eq_true (show (Validator.simple nom).validate p.1 = .ok () from h4)
+    · simp only [Validator.validate] at h3
+      rw [h3] at h4
+      cases h4
+
 /-- non-vacuity of the eliminator theorems: a dictionary of three ranked ballots (keys well-formed and
     hashable, none rejected with a CandidateError), of which exactly the invalid one is removed -/
 example :
